@@ -4,6 +4,7 @@ package main
 // recording stub transport, against Model/Ack.v.
 
 import (
+	"context"
 	"encoding/json"
 	"encoding/xml"
 	"fmt"
@@ -21,9 +22,18 @@ type c10Op struct {
 	Op   string `json:"op"`             // send raw ack peer_r session attempt resume
 	Kind int    `json:"kind,omitempty"` // send: 0 stanza 1 stanza.SMRequest 2 stanza.SMAnswer 3 *stanza.SMRequest 4 *stanza.SMAnswer 5 a nil packet
 	Body string `json:"body,omitempty"` // stanza body / raw string (a raw <r/> or <a/> of stream management is recognised by c10RawKind)
-	H    int    `json:"h,omitempty"`
-	Big  bool   `json:"big,omitempty"`  // ack: h = 2^63 + H (beyond the signed range)
-	Fail bool   `json:"fail,omitempty"` // send/raw: the transport refuses this write (Send returns the error)
+	// send: the Go type through which the packet reaches the client (c10Vias). Kind 0: 0 stanza.Message, 1 *stanza.Message,
+	// 2 stanza.Presence, 3 *stanza.Presence, 4 *stanza.IQ through Send, 5 *stanza.IQ through SendIQ, 6 / 7 an
+	// application-defined stanza.Packet type marshalling to a <message/> (value / pointer), 8 / 9 one marshalling to a
+	// <presence/> (value / pointer), 10 the bytes of the stanza.Message through SendRaw. Kind 5: 0 a nil packet, 1 / 2 an
+	// application-defined stanza.Packet marshalling to a nonza (value / pointer). What is held is decided by the element
+	// written, not by the Go type: the model does not see this field.
+	Via int `json:"via,omitempty"`
+	// send/raw: the call is made by a route handler, through the Sender the router hands it (as the examples answer: s.Send(&reply))
+	Fwd  bool `json:"fwd,omitempty"`
+	H    int  `json:"h,omitempty"`
+	Big  bool `json:"big,omitempty"`  // ack: h = 2^63 + H (beyond the signed range)
+	Fail bool `json:"fail,omitempty"` // send/raw: the transport refuses this write (Send returns the error)
 	// ack: write number FailAt (from 1) of the retransmission this acknowledgement causes is refused by the transport (0: none)
 	FailAt int `json:"fail_at,omitempty"`
 	// session: the client connects again (a new connection, the server refuses to resume the old session) and
@@ -95,7 +105,7 @@ func (c10) RunFn() string { return "run_C10" }
 func (c10) Workers() int  { return 8 }
 func (c10) Journal() bool { return true }
 func (c10) Rule() string {
-	return "random histories (0-40 ops) over Send(stanza), Send(<r/>), Send(<a/>) by value and by pointer, the server's <r/> answered by the real receive loop, SendRaw(stanza string), SendRaw of a raw stream-management <r/> or <a/> (several spellings), sends whose write the transport refuses, and server <a h/> with h below, equal to, above the number sent, stale, repeated and beyond the signed range (h is unsigned on the wire) through the real Client.Send/SendRaw and Router.route(SMAnswer) on a recording transport, a sixth of them on a session negotiated by the real Client.Connect (its initial presence is the first stanza of the session) with the server's <enabled/> carrying resume='true', other spellings of true, false, no attribute or garbage (whether resumption is granted makes no difference: stream management is active and every stanza is held), acknowledgements whose retransmission is cut short by a refused write at every position (what was not written stays held, no <r/>), and new connections of the same client in the middle of a history, up to three, after sessions that had a stream-management id (resumption is tried and refused) and after sessions whose <enabled/> carried none (nothing to resume with) (the old session is not resumed: a new session, numbered from 1, holding whatever this or any earlier <enabled/> said about resumption), sends of what is not a stanza between the stanzas (white space, the empty string, a nil packet, client-state nonzas, elements of a foreign namespace: written, never held or numbered - the numbers stay in step with a server that counts stanzas), and outages: one to three connection attempts of the same client that fail (cut before the features, while <proceed/> of a required STARTTLS is awaited, while the answer to <resume/> is awaited), acknowledgements of the old connection applied meanwhile (nothing can be written), then the session resumed by the real Client.connect (<resumed/>) - every stanza held before the outage is still held under its number and is retransmitted or discarded by the next acknowledgement; after every op the queue (ids, payloads) and the bytes written are compared; plus concurrent senders (8 goroutines) and two senders of which the first is stalled by the transport between numbering and writing (the sequence numbers must follow the order on the wire), followed by acknowledgements, and acknowledgements piling up on their own goroutines behind a retransmission stalled in a blocking write (only what is held afterwards is compared); distinct = op-kind/h-class sequence; non-trivial = at least one ack with stanzas held"
+	return "random histories (0-40 ops) over Send(stanza), Send(<r/>), Send(<a/>) by value and by pointer, the stanza reaching the client through every Go type there is (stanza.Message and stanza.Presence by value and by pointer, *stanza.IQ through Send and through SendIQ, application-defined stanza.Packet types marshalling to a <message/>, a <presence/> or a nonza by value and by pointer, the same bytes through SendRaw: half of the stanza sends; what is held is decided by the element written), a fifth of all sends made by a route handler through the Sender the router hands it, the server's <r/> answered by the real receive loop, SendRaw(stanza string), SendRaw of a raw stream-management <r/> or <a/> (several spellings), sends whose write the transport refuses, and server <a h/> with h below, equal to, above the number sent, stale, repeated and beyond the signed range (h is unsigned on the wire) through the real Client.Send/SendRaw and Router.route(SMAnswer) on a recording transport, a sixth of them on a session negotiated by the real Client.Connect (its initial presence is the first stanza of the session) with the server's <enabled/> carrying resume='true', other spellings of true, false, no attribute or garbage (whether resumption is granted makes no difference: stream management is active and every stanza is held), acknowledgements whose retransmission is cut short by a refused write at every position (what was not written stays held, no <r/>), and new connections of the same client in the middle of a history, up to three, after sessions that had a stream-management id (resumption is tried and refused) and after sessions whose <enabled/> carried none (nothing to resume with) (the old session is not resumed: a new session, numbered from 1, holding whatever this or any earlier <enabled/> said about resumption), sends of what is not a stanza between the stanzas (white space, the empty string, a nil packet, client-state nonzas, elements of a foreign namespace: written, never held or numbered - the numbers stay in step with a server that counts stanzas), and outages: one to three connection attempts of the same client that fail (cut before the features, while <proceed/> of a required STARTTLS is awaited, while the answer to <resume/> is awaited), acknowledgements of the old connection applied meanwhile (nothing can be written), then the session resumed by the real Client.connect (<resumed/>) - every stanza held before the outage is still held under its number and is retransmitted or discarded by the next acknowledgement; after every op the queue (ids, payloads) and the bytes written are compared; plus concurrent senders (8 goroutines) and two senders of which the first is stalled by the transport between numbering and writing (the sequence numbers must follow the order on the wire), followed by acknowledgements, and acknowledgements piling up on their own goroutines behind a retransmission stalled in a blocking write (only what is held afterwards is compared); distinct = op-kind/h-class sequence; non-trivial = at least one ack with stanzas held"
 }
 
 func (c10) Decode(raw json.RawMessage) (interface{}, error) {
@@ -116,7 +126,7 @@ var c10RawSM = []string{
 // c10Witnesses: the minimal histories of the defects found by review (replays/C10/corpus carries the same).
 func c10Witnesses() []interface{} {
 	m := func(b string) c10Op { return c10Op{Op: "send", Body: b} }
-	return []interface{}{
+	ws := []interface{}{
 		// an acknowledgement request / answer passed to Send as a pointer
 		c10In{Ops: []c10Op{m("m1"), {Op: "send", Kind: 3}, {Op: "ack", H: 1}, m("m2"), {Op: "ack", H: 2}}},
 		c10In{Ops: []c10Op{m("m1"), {Op: "send", Kind: 4, H: 0}, {Op: "ack", H: 1}}},
@@ -156,6 +166,19 @@ func c10Witnesses() []interface{} {
 		c10In{Connect: true, NoID: true, Ops: []c10Op{m("m1"), m("m2"), {Op: "session"}, m("m3"), {Op: "ack", H: 0}, {Op: "ack", H: 1}}},
 		c10In{NoID: true, Ops: []c10Op{m("m1"), {Op: "session", NoID: true}, m("m2"), {Op: "session", NoID: true, Resume: "false"}, m("m3"), m("m4"), {Op: "ack", H: 1}, {Op: "session"}, m("m5"), {Op: "ack", H: 1}}},
 	}
+	// every Go type through which a stanza can reach the client, called directly and from a route handler: held as
+	// number 2 between two plain messages, acknowledged one by one (each acknowledgement retransmits the rest)
+	for via := 1; via < c10NVias; via++ {
+		for _, fwd := range []bool{false, true} {
+			ws = append(ws, c10In{Ops: []c10Op{m("m1"), {Op: "send", Body: "v", Via: via, Fwd: fwd}, m("m3"), {Op: "ack", H: 1}, {Op: "ack", H: 2}, {Op: "ack", H: 3}}})
+		}
+	}
+	// an application-defined nonza is written and not counted; stanzas and raw strings sent by a handler are held
+	ws = append(ws,
+		c10In{Ops: []c10Op{m("m1"), {Op: "send", Kind: 5, Via: 1}, {Op: "send", Kind: 5, Via: 2, Fwd: true}, m("m2"), {Op: "ack", H: 1}, {Op: "ack", H: 2}}},
+		c10In{Connect: true, Ops: []c10Op{{Op: "send", Body: "r", Fwd: true}, {Op: "raw", Body: "<presence/>", Fwd: true}, {Op: "send", Kind: 3, Fwd: true}, {Op: "ack", H: 1}, {Op: "ack", H: 3}}},
+	)
+	return ws
 }
 
 func (c10) Gen(r *rand.Rand, tier string) []interface{} {
@@ -235,7 +258,12 @@ func (c10) Gen(r *rand.Rand, tier string) []interface{} {
 			}
 			switch c := r.Intn(10); {
 			case c < 4:
-				ops = append(ops, c10Op{Op: "send", Body: bodies[r.Intn(len(bodies))] + fmt.Sprint(j), Fail: fail})
+				o := c10Op{Op: "send", Body: bodies[r.Intn(len(bodies))] + fmt.Sprint(j), Fail: fail}
+				if r.Intn(2) == 0 {
+					o.Via = 1 + r.Intn(c10NVias-1) // not the library's value Message: pointers, presence, iq, SendIQ, application-defined types, the same bytes raw
+				}
+				o.Fwd = r.Intn(5) == 0
+				ops = append(ops, o)
 				if !fail && holding {
 					sent++
 				}
@@ -256,7 +284,7 @@ func (c10) Gen(r *rand.Rand, tier string) []interface{} {
 					}
 					break
 				}
-				ops = append(ops, c10Op{Op: "raw", Body: fmt.Sprintf("<message id='r%d'><body>%s</body></message>", j, "raw"), Fail: fail})
+				ops = append(ops, c10Op{Op: "raw", Body: fmt.Sprintf("<message id='r%d'><body>%s</body></message>", j, "raw"), Fail: fail, Fwd: r.Intn(5) == 0})
 				if !fail && holding {
 					sent++
 				}
@@ -264,7 +292,11 @@ func (c10) Gen(r *rand.Rand, tier string) []interface{} {
 				if r.Intn(2) == 0 {
 					ops = append(ops, c10Op{Op: "peer_r"})
 				} else {
-					ops = append(ops, c10Op{Op: "send", Kind: 1 + r.Intn(5), H: r.Intn(4)})
+					o := c10Op{Op: "send", Kind: 1 + r.Intn(5), H: r.Intn(4), Fwd: r.Intn(5) == 0}
+					if o.Kind == 5 {
+						o.Via = r.Intn(3) // a nil packet, an application-defined nonza by value, by pointer
+					}
+					ops = append(ops, o)
 				}
 			default:
 				var h int
@@ -529,7 +561,39 @@ func c10Resume(c *xmpp.Client, secure bool) (st *stubTransport, err error) {
 	return
 }
 
-func c10Packet(o c10Op) stanza.Packet {
+// application-defined packet types: the library's Packet interface is open (Name() string), what they are on the
+// stream is what they marshal to
+type c10AppMessage struct {
+	XMLName xml.Name `xml:"message"`
+	To      string   `xml:"to,attr"`
+	Id      string   `xml:"id,attr"`
+	Body    string   `xml:"body"`
+}
+
+func (c10AppMessage) Name() string { return "app-message" }
+
+type c10AppPresence struct {
+	XMLName xml.Name `xml:"jabber:client presence"`
+	Id      string   `xml:"id,attr"`
+	Status  string   `xml:"status"`
+}
+
+func (c10AppPresence) Name() string { return "app-presence" }
+
+type c10AppNonza struct {
+	XMLName xml.Name `xml:"urn:xmpp:csi:0 inactive"`
+}
+
+func (c10AppNonza) Name() string { return "app-nonza" }
+
+const c10NVias = 11 // Kind 0
+const c10ViaSendIQ, c10ViaRaw = 5, 10
+
+var c10ViaNames = []string{"Message", "*Message", "Presence", "*Presence", "*IQ", "SendIQ(*IQ)", "app-message", "*app-message", "app-presence", "*app-presence", "SendRaw(bytes of Message)"}
+
+// c10Packet: the packet of the send op at index at of its history (the index makes the ids of the iq requests distinct:
+// SendIQ refuses an id that still awaits its response)
+func c10Packet(o c10Op, at int) stanza.Packet {
 	switch o.Kind {
 	case 1:
 		return stanza.SMRequest{}
@@ -540,11 +604,58 @@ func c10Packet(o c10Op) stanza.Packet {
 	case 4:
 		return &stanza.SMAnswer{H: uint(o.H)}
 	case 5:
+		switch o.Via {
+		case 1:
+			return c10AppNonza{}
+		case 2:
+			return &c10AppNonza{}
+		}
 		return nil
+	}
+	switch o.Via {
+	case 2, 3:
+		p := stanza.NewPresence(stanza.Attrs{To: "peer@localhost", Id: "p"})
+		p.Status = o.Body
+		if o.Via == 3 {
+			return &p
+		}
+		return p
+	case 4, 5:
+		iq, err := stanza.NewIQ(stanza.Attrs{Type: stanza.IQTypeGet, To: "peer@localhost", Id: fmt.Sprintf("q%d", at)})
+		if err != nil {
+			panic(err)
+		}
+		iq.Payload = &stanza.Version{Name: o.Body}
+		return iq
+	case 6:
+		return c10AppMessage{To: "peer@localhost", Id: "am", Body: o.Body}
+	case 7:
+		return &c10AppMessage{To: "peer@localhost", Id: "am", Body: o.Body}
+	case 8:
+		return c10AppPresence{Id: "ap", Status: o.Body}
+	case 9:
+		return &c10AppPresence{Id: "ap", Status: o.Body}
 	}
 	m := stanza.NewMessage(stanza.Attrs{To: "peer@localhost", Id: "m"})
 	m.Body = o.Body
+	if o.Via == 1 {
+		return &m
+	}
 	return m
+}
+
+// c10Deliver: hand the packet of a send op to the sender the way the op says
+func c10Deliver(s xmpp.Sender, o c10Op, at int, ctx context.Context) {
+	p := c10Packet(o, at)
+	switch {
+	case o.Kind == 0 && o.Via == c10ViaSendIQ:
+		s.SendIQ(ctx, p.(*stanza.IQ))
+	case o.Kind == 0 && o.Via == c10ViaRaw:
+		data, _ := xml.Marshal(p)
+		s.SendRaw(string(data))
+	default:
+		s.Send(p)
+	}
 }
 
 // c10SendKind: what a Send op hands over (0 stanza, 1 acknowledgement request, 2 acknowledgement answer, 5 nothing the
@@ -689,7 +800,11 @@ func (c10) Run(inp interface{}) Sx {
 						c.SendRaw(fmt.Sprintf("<message id='g%d-%d'/>", g, k))
 					} else {
 						m := stanza.NewMessage(stanza.Attrs{Id: fmt.Sprintf("g%d-%d", g, k)})
-						c.Send(m)
+						if k%4 == 3 {
+							c.Send(&m) // the same stanza by pointer
+						} else {
+							c.Send(m)
+						}
 					}
 				}
 			}(g)
@@ -700,9 +815,9 @@ func (c10) Run(inp interface{}) Sx {
 	if in.Race > 0 {
 		bodyA, bodyB := c10RaceBodies(in.Race)
 		sendA := func() { c.SendRaw(bodyA) }
-		sendB := func() { c.Send(c10Packet(c10Op{Body: bodyB})) }
+		sendB := func() { c.Send(c10Packet(c10Op{Body: bodyB}, 0)) }
 		if in.Race == 2 {
-			sendA, sendB = func() { c.Send(c10Packet(c10Op{Body: bodyB})) }, func() { c.SendRaw(bodyA) }
+			sendA, sendB = func() { c.Send(c10Packet(c10Op{Body: bodyB, Via: 1}, 0)) }, func() { c.SendRaw(bodyA) } // the message by pointer
 		}
 		gate := make(chan struct{})
 		st.mu.Lock()
@@ -737,7 +852,22 @@ func (c10) Run(inp interface{}) Sx {
 		}
 		steps = append(steps, snapshot())
 	}
-	for _, o := range in.Ops {
+	// sends made by a route handler through the Sender the router hands it: the handler of <message/> does what the
+	// harness asks for (the inbound message is handed to Router.route directly, as the acknowledgements are)
+	var inHandler func(s xmpp.Sender)
+	router.HandleFunc("message", func(s xmpp.Sender, p stanza.Packet) {
+		if inHandler != nil {
+			inHandler(s)
+		}
+	})
+	forwarded := func(call func(s xmpp.Sender)) {
+		inHandler = call
+		xmpp.VerifRoute(router, c, stanza.NewMessage(stanza.Attrs{From: "peer@localhost", Id: "in"}))
+		inHandler = nil
+	}
+	iqCtx, iqCancel := context.WithCancel(context.Background())
+	defer iqCancel() // the iq requests of SendIQ are never answered: their routes go when the history ends
+	for oi, o := range in.Ops {
 		if o.Fail && (o.Op == "send" || o.Op == "raw") {
 			st.mu.Lock()
 			st.writeFailAt[st.nwrites+1] = true
@@ -745,9 +875,17 @@ func (c10) Run(inp interface{}) Sx {
 		}
 		switch o.Op {
 		case "send":
-			c.Send(c10Packet(o))
+			if o.Fwd {
+				forwarded(func(s xmpp.Sender) { c10Deliver(s, o, oi, iqCtx) })
+			} else {
+				c10Deliver(c, o, oi, iqCtx)
+			}
 		case "raw":
-			c.SendRaw(o.Body)
+			if o.Fwd {
+				forwarded(func(s xmpp.Sender) { s.SendRaw(o.Body) })
+			} else {
+				c.SendRaw(o.Body)
+			}
 		case "ack":
 			h := uint(o.H)
 			if o.Big {
@@ -882,7 +1020,7 @@ func (p c10) InputObs(inp interface{}, obs Sx) Sx {
 		ops = append(ops, L(Z(9), LS(ds)))
 	}
 	closed := false // between a failed attempt and the next established session every write is refused
-	for _, o := range in.Ops {
+	for oi, o := range in.Ops {
 		switch o.Op {
 		case "attempt":
 			ops = append(ops, L(Z(11)))
@@ -891,9 +1029,13 @@ func (p c10) InputObs(inp interface{}, obs Sx) Sx {
 			ops = append(ops, L(Z(12)))
 			closed = false
 		case "send":
-			data, _ := xml.Marshal(c10Packet(o))
+			// the Go type through which the packet arrives (Via) and who makes the call (Fwd) are not the model's business:
+			// it gets the element
+			data, _ := xml.Marshal(c10Packet(o, oi))
 			if o.Fail {
 				ops = append(ops, L(Z(4), Zi(o.Kind), SBytes(c10Canon(string(data)))))
+			} else if o.Kind == 0 && o.Via == c10ViaRaw {
+				ops = append(ops, L(Z(1), Z(0), SBytes(c10Canon(string(data)))))
 			} else {
 				ops = append(ops, L(Z(0), Zi(o.Kind), SBytes(c10Canon(string(data)))))
 			}
@@ -1039,7 +1181,7 @@ func (c10) Oracle(inp interface{}, obs Sx) (string, string) {
 	}
 	if in.Race > 0 {
 		bodyA, bodyB := c10RaceBodies(in.Race)
-		data, _ := xml.Marshal(c10Packet(c10Op{Body: bodyB}))
+		data, _ := xml.Marshal(c10Packet(c10Op{Body: bodyB}, 0))
 		want := map[string]int{c10Canon(bodyA): 1, c10Canon(string(data)): 1}
 		if idx >= len(steps) {
 			return "no observation", "shape"
@@ -1080,9 +1222,15 @@ func (c10) Oracle(inp interface{}, obs Sx) (string, string) {
 			// the session goes on: same stanzas, same numbers; nothing is written by the resumption itself
 			closed = false
 		case "send":
-			data, _ := xml.Marshal(c10Packet(o))
+			data, _ := xml.Marshal(c10Packet(o, oi))
 			k := c10SendKind(o)
 			what = fmt.Sprintf("send%d", o.Kind)
+			if o.Via != 0 {
+				what += fmt.Sprintf("-via%d", o.Via)
+			}
+			if o.Fwd {
+				what += "-in-handler"
+			}
 			if o.Fail {
 				what += "-refused"
 				break // nothing on the wire, nothing sent on the session
@@ -1099,6 +1247,9 @@ func (c10) Oracle(inp interface{}, obs Sx) (string, string) {
 			k := c10RawKind(o.Body)
 			if k != 0 {
 				what = fmt.Sprintf("raw-sm%d", k)
+			}
+			if o.Fwd {
+				what += "-in-handler"
 			}
 			if o.Fail {
 				what += "-refused"
@@ -1226,6 +1377,18 @@ func (c10) Key(inp interface{}) (string, bool) {
 		switch o.Op {
 		case "send":
 			b.WriteString("s" + fmt.Sprint(o.Kind))
+			if o.Via != 0 {
+				b.WriteString("v" + fmt.Sprint(o.Via))
+			}
+			if o.Fwd {
+				b.WriteString("h")
+				hist("op:send-in-handler")
+			}
+			if o.Kind == 0 {
+				hist("send0-via:" + c10ViaNames[o.Via])
+			} else if o.Kind == 5 {
+				hist(fmt.Sprintf("send5-via:%d", o.Via))
+			}
 			if o.Fail {
 				b.WriteString("!")
 				hist(fmt.Sprintf("op:send%d-refused", o.Kind))
@@ -1241,6 +1404,10 @@ func (c10) Key(inp interface{}) (string, bool) {
 		case "raw":
 			k := c10RawKind(o.Body)
 			b.WriteString("w" + fmt.Sprint(k))
+			if o.Fwd {
+				b.WriteString("h")
+				hist("op:raw-in-handler")
+			}
 			if o.Fail {
 				b.WriteString("!")
 				hist(fmt.Sprintf("op:raw%d-refused", k))
